@@ -973,3 +973,16 @@ pub(crate) mod testing {
         do_mutated_decode_failure_test(packet, protocol_version, reserved_mutator);
     }
 }
+/// Verification hook (feature `verif`): read-only view of the incremental framing state
+/// (state code, buffered bytes, first byte, remaining length).
+#[cfg(feature = "verif")]
+pub(crate) fn verif_decoder_state(decoder: &Decoder) -> (u8, Vec<u8>, Option<u8>, Option<usize>) {
+    let state =
+        match decoder.state {
+            DecoderState::ReadPacketType => 0,
+            DecoderState::ReadTotalRemainingLength => 1,
+            DecoderState::ReadPacketBody => 2,
+            _ => 3,
+        };
+    (state, decoder.scratch.clone(), decoder.first_byte, decoder.remaining_length)
+}
